@@ -98,7 +98,7 @@ fn main() {
 	}));
 	let t0 = Instant::now();
 	let rep: Report = match cfg.prop.as_str() {
-		"conc" | "conc_retry" | "conc_panic" => {
+		"conc" | "conc_retry" | "conc_panic" | "conc_fault" => {
 			let mut gen = prog::GenCfg::default();
 			if cfg.prop == "conc_retry" {
 				gen.retry_bias = true;
@@ -106,11 +106,20 @@ fn main() {
 			if cfg.prop == "conc_panic" {
 				gen.allow_panic = true;
 			}
+			if cfg.prop == "conc_fault" {
+				gen.allow_unwind = false;
+			}
 			let plan = props::conc::ConcPlan {
 				programs: ((if cfg.thorough { 20000.0 } else { 1200.0 }) * cfg.scale) as u64,
 				schedules: if cfg.thorough { 12 } else { 6 },
 				gen,
-				label: "concurrent",
+				label: match cfg.prop.as_str() {
+					"conc_retry" => "concurrent, retrying collections favoured",
+					"conc_panic" => "concurrent, panicking critical sections",
+					"conc_fault" => "concurrent, one clean raw-lock panic per episode (lock/try panics before taking effect, unlock after; thread and raw-op index drawn per item); a call unwound by it - or by the up-front panic of the lock it killed - must leave its thread holding nothing with its key obtainable",
+					_ => "concurrent",
+				},
+				faults: cfg.prop == "conc_fault",
 			};
 			props::conc::run(&cfg, &plan)
 		}
